@@ -5,7 +5,7 @@ encoder), described by the real rdsquashfs (with and without --unpack-root), unp
 real gensquashfs --pack-file and the decoded trees are compared entry by entry."""
 import itertools, json, os, random, shutil, subprocess, sys
 from concurrent.futures import ThreadPoolExecutor
-import vlib, build, sqfsimg
+import vlib, build, bpbind, sqfsimg
 from vlib import VERIF, Evidence, Reporter, run_tlc, write_cfg, scratch, SEED, sh
 
 PID = "C16"
@@ -105,6 +105,66 @@ def roundtrip(tools, work, tag, names, targets, unpack_root):
     return bad, n_ok
 
 
+def line_reader_stage(work, ev, rep, tier, rng):
+    """spec/LineReader.tla: the delivered lines do not depend on where the stream's buffers end.  Every (text, cut, flags) TLC emits is
+    placed so that the file stream's 128 KiB buffer ends exactly `cut` characters into the text, and read by the real istream_get_line."""
+    cfg = work + "/lr.cfg"
+    ML = 4 if tier == "quick" else 5
+    write_cfg(cfg, spec="Spec", constants={"MaxLen": ML + 1, "Emit": False, "CrPerChunk": False}, invariants=["ChunkIndependent", "ImplIsSpec"], deadlock=False)
+    r = run_tlc("LineReader", cfg, workers=16, timeout=1800)
+    ev.tlc(r, "LineReader texts<=%d" % (ML + 1))
+    if not r["ok"]:
+        print("MODEL-FAILURE: LineReader violates %s" % r["violated"])
+        return None
+    write_cfg(cfg, spec="Spec", constants={"MaxLen": 3, "Emit": False, "CrPerChunk": True}, invariants=["ChunkIndependent", "ImplIsSpec"], deadlock=False)
+    r = run_tlc("LineReader", cfg, workers=4, timeout=600)
+    ev.tlc(r, "dev LineReader CrPerChunk")
+    if not r["violated"]:
+        print("SELF-CHECK-FAILED: CrPerChunk without counterexample")
+        return None
+    write_cfg(cfg, spec="Spec", constants={"MaxLen": ML, "Emit": True, "CrPerChunk": False}, invariants=["EmitOK"], deadlock=False)
+    r = run_tlc("LineReader", cfg, workers=4, timeout=900)
+    cases = bpbind.parse_emitted(r["out"])
+    ev.set("line_reader_cases_emitted", len(cases))
+    withcr = [c for c in cases if "r" in c["text"]]
+    rest = [c for c in cases if "r" not in c["text"]]
+    rng.shuffle(withcr)
+    rng.shuffle(rest)
+    cap = 500 if tier == "quick" else 6000
+    cases = withcr[:cap] + rest[:cap // 4]
+    binp = work + "/replay_getline"
+    if not build.compile_harness(VERIF + "/harness/replay_getline.c", binp, variant="plain"):
+        raise RuntimeError("harness build failed")
+    CH = {"p": b"a", "s": b" ", "r": b"\r", "n": b"\n"}
+    BUF = 131072
+
+    def one(i):
+        c = cases[i]
+        txt = b"".join(CH[x] for x in c["text"])
+        pad = b"x" * (BUF - c["cut"] - 1) + b"\n"          # one pad line; the buffer ends c["cut"] characters into the text
+        p = "%s/lr%d.txt" % (work, i)
+        open(p, "wb").write(pad + txt)
+        fl = "".join(c["flags"]) or "-"
+        rc, o, e = sh([binp, p, fl, "1"], timeout=30)
+        os.unlink(p)
+        try:
+            got = [bytes.fromhex(h) for h in json.loads(o.decode())["lines"]]
+        except Exception:
+            return i, "harness died (rc %d)" % rc
+        want = [b"".join(CH[x] for x in l) for l in c["lines"]]
+        return i, (None if got == want else "delivers %r, the text means %r" % (got, want))
+
+    n = 0
+    with ThreadPoolExecutor(max_workers=16) as ex:
+        for i, bad in ex.map(one, range(len(cases))):
+            n += 1
+            if bad:
+                c = cases[i]
+                rep.violation("line-reader-chunk-dependent", "istream_get_line on the text %r with the stream buffer ending after %d characters (flags %s): %s"
+                              % (b"".join(CH[x] for x in c["text"]), c["cut"], c["flags"], bad), data={"case": c})
+    return n
+
+
 def run(tier):
     ev = Evidence(PID, tier, "model_checking")
     rep = Reporter(PID, ev)
@@ -170,6 +230,11 @@ def run(tier):
                     continue
                 seen.add(k)
                 rep.violation(k, ("with --unpack-root: " if ur else "") + what, data={"unpack_root": ur, "item": repr(item)})
+    n_lr = line_reader_stage(work, ev, rep, tier, rng)
+    if n_lr is None:
+        ev.write()
+        return 2
+    replays += n_lr
     ev.sample({"kind": "names(character classes p=plain s=space t=tab q=quote b=backslash h=hash)", "count": len(names),
                "examples": [repr(n) for n in names[:12]]}, limit=3)
     ev.set("entries_round_tripped", total_ok)
